@@ -47,6 +47,10 @@ class _GraphIO(collections.UserList["_core.Value"]):
         """Check the invariance of the graph."""
         raise NotImplementedError
 
+    def _check_can_own(self, value: _core.Value) -> None:
+        """Raise if the value cannot become an input/output of this graph. Changes nothing."""
+        raise NotImplementedError
+
     def _set_graph(self, value: _core.Value) -> None:
         """Set the graph for the value."""
         raise NotImplementedError
@@ -65,14 +69,18 @@ class _GraphIO(collections.UserList["_core.Value"]):
     def extend(self, other) -> None:
         """Extend the list of inputs or outputs."""
         other = tuple(other)
+        # Validate every item before touching any of them so a rejected call changes nothing
+        for item in other:
+            self._check_can_own(item)
         for item in other:
             self._set_graph(item)
         super().extend(other)
 
     def insert(self, i: int, item: _core.Value) -> None:
         """Insert an input/output to the graph."""
-        super().insert(i, item)
+        # Perform checks first in _set_graph before modifying the data structure
         self._set_graph(item)
+        super().insert(i, item)
         self._check_invariance()
 
     def pop(self, i: int = -1) -> _core.Value:
@@ -103,6 +111,10 @@ class _GraphIO(collections.UserList["_core.Value"]):
         """Replace an input/output to the node."""
         if isinstance(item, Iterable) and isinstance(i, slice):
             # Modify a slice of the list
+            item = tuple(item)
+            # Validate the new values before releasing the old ones
+            for value in item:
+                self._check_can_own(value)
             for value in self.data[i]:
                 self._maybe_unset_graph(value)
             for value in item:
@@ -112,7 +124,10 @@ class _GraphIO(collections.UserList["_core.Value"]):
             return
         elif isinstance(i, SupportsIndex):
             # Replace a single item
-            self._maybe_unset_graph(self.data[i])
+            old_value = self.data[i]
+            # Validate the new value before releasing the old one
+            self._check_can_own(item)
+            self._maybe_unset_graph(old_value)
             self._set_graph(item)
             super().__setitem__(i, item)
             self._check_invariance()
@@ -158,8 +173,8 @@ class GraphInputs(_GraphIO):
                 f"Invariance error: Value '{value}' is not an input of the graph: {self._graph!r}"
             )
 
-    def _set_graph(self, value: _core.Value) -> None:
-        """Set the graph for the value."""
+    def _check_can_own(self, value: _core.Value) -> None:
+        """Raise if the value cannot become an input of this graph. Changes nothing."""
         if value._graph is not None and value._graph is not self._graph:
             raise ValueError(
                 f"Value '{value}' is already owned by a different graph. Please remove the value from the previous graph first"
@@ -168,6 +183,10 @@ class GraphInputs(_GraphIO):
             raise ValueError(
                 f"Value '{value}' is produced by a node and cannot be an input to the graph. Please create new Values for graph inputs"
             )
+
+    def _set_graph(self, value: _core.Value) -> None:
+        """Set the graph for the value."""
+        self._check_can_own(value)
         self._ref_counter[value] += 1
         value._is_graph_input = True
         value._graph = self._graph
@@ -200,12 +219,16 @@ class GraphOutputs(_GraphIO):
                 f"Invariance error: Value '{value}' is not an output of the graph: {self._graph!r}"
             )
 
-    def _set_graph(self, value: _core.Value) -> None:
-        """Set the graph for the value."""
+    def _check_can_own(self, value: _core.Value) -> None:
+        """Raise if the value cannot become an output of this graph. Changes nothing."""
         if value._graph is not None and value._graph is not self._graph:
             raise ValueError(
                 f"Value '{value}' is already an output of a different graph. Please remove the value from the previous graph first"
             )
+
+    def _set_graph(self, value: _core.Value) -> None:
+        """Set the graph for the value."""
+        self._check_can_own(value)
         self._ref_counter[value] += 1
         value._is_graph_output = True
         value._graph = self._graph
